@@ -643,6 +643,27 @@ func (e1Engine) Generate(seed uint64, prop, tier string) (json.RawMessage, error
 		add(e1Step{K: "line", S: a, Data: g.Pick([]string{"PRIVMSG", "NOTICE"}) + " {nickb} :are you there?"})
 		add(e1Step{K: "line", S: a, Data: "PRIVMSG {nickb} :again"})
 	}
+	// snippet: a session on very many channels with long names (its WHOIS channel list does not fit one line),
+	// then WHOIS by somebody else and by itself
+	manyChannels := func() {
+		if nsess < 2 {
+			return
+		}
+		a, b := g.Intn(nsess), g.Intn(nsess)
+		if a == b || a == svc || b == svc {
+			return
+		}
+		nch := g.Range(30, 48)
+		for k := 0; k < nch; k += 8 {
+			var l []string
+			for j := k; j < k+8 && j < nch; j++ {
+				l = append(l, fmt.Sprintf("#%s-%02d", strings.Repeat("m", 8+(j*7)%20), j))
+			}
+			add(e1Step{K: "line", S: b, Data: "JOIN " + strings.Join(l, ",")})
+		}
+		add(e1Step{K: "line", S: a, Data: "WHOIS {nickb}"})
+		add(e1Step{K: "line", S: b, Data: "WHOIS {nicka}"})
+	}
 	// snippet: several members on one channel, a membership-changing event, then channel and private traffic
 	chatter := func() {
 		if nsess < 3 {
@@ -698,6 +719,8 @@ func (e1Engine) Generate(seed uint64, prop, tier string) (json.RawMessage, error
 			botLeaves()
 		case r >= 592 && r < 598:
 			callerID()
+		case r >= 598 && r < 602:
+			manyChannels()
 		case (prop == "C02" || prop == "C10") && faulty && r >= 577 && r < 592:
 			snapSaga()
 		case r >= 500 && r < 540:
